@@ -1,0 +1,164 @@
+//go:build verif
+
+package stream
+
+// Contracts for the stream Write*/Read* helpers (property C01: every helper pair round-trips through any
+// io.Reader, however that reader splits its reads; property C02: no panic and no allocation driven by an
+// unvalidated length), read by the verification machinery in /verif. Comment-only file.
+//
+// Readers and writers are the abstract byte streams of the assumed io model (/verif/contracts/trusted:
+// io.rdata/rpos/rlen, io.wdata/wlen, keyed by the interface value; Read may return any number of bytes
+// between 0 and len(p) and fails only at the end of the data). A reader "has k bytes left" when
+// rlen - rpos >= k. Every reading helper must succeed whenever enough bytes are left, return exactly those
+// bytes and advance the stream by exactly that amount; every writing helper appends the documented layout.
+
+/*@
+-- the collection size denoted by a prefix of type lt at a[o..]
+specfun sizeprefix(a IntArr, o Int, lt Int) Int = lt == 200 ? sel(a, o) : (lt == 201 ? le16(a, o) : (lt == 202 ? le32(a, o) : le64(a, o)))
+
+func Read
+  instantiate T: uint8, uint16, uint32, uint64, int8, int16, int32, int64, bool
+  requires reader != nil
+  modifies ghost(io.rpos)
+  ensures forall x Int :: x != reader ==> sel(io.rpos, x) == sel(old(io.rpos), x)
+  ensures sel(io.rpos, reader) >= old(sel(io.rpos, reader)) && sel(io.rpos, reader) <= sel(io.rlen, reader)
+  ensures typeid(T) == typeid(uint8) && sel(io.rlen, reader) - old(sel(io.rpos, reader)) >= 1 ==> err == nil && sel(io.rpos, reader) == old(sel(io.rpos, reader)) + 1 && int(result) == sel(sel(io.rdata, reader), old(sel(io.rpos, reader)))
+  ensures typeid(T) == typeid(uint8) && sel(io.rlen, reader) - old(sel(io.rpos, reader)) < 1 ==> err != nil
+  ensures typeid(T) == typeid(uint16) && sel(io.rlen, reader) - old(sel(io.rpos, reader)) >= 2 ==> err == nil && sel(io.rpos, reader) == old(sel(io.rpos, reader)) + 2 && int(result) == le16(sel(io.rdata, reader), old(sel(io.rpos, reader)))
+  ensures typeid(T) == typeid(uint16) && sel(io.rlen, reader) - old(sel(io.rpos, reader)) < 2 ==> err != nil
+  ensures typeid(T) == typeid(uint32) && sel(io.rlen, reader) - old(sel(io.rpos, reader)) >= 4 ==> err == nil && sel(io.rpos, reader) == old(sel(io.rpos, reader)) + 4 && int(result) == le32(sel(io.rdata, reader), old(sel(io.rpos, reader)))
+  ensures typeid(T) == typeid(uint32) && sel(io.rlen, reader) - old(sel(io.rpos, reader)) < 4 ==> err != nil
+  ensures typeid(T) == typeid(uint64) && sel(io.rlen, reader) - old(sel(io.rpos, reader)) >= 8 ==> err == nil && sel(io.rpos, reader) == old(sel(io.rpos, reader)) + 8 && int(result) == le64(sel(io.rdata, reader), old(sel(io.rpos, reader)))
+  ensures typeid(T) == typeid(uint64) && sel(io.rlen, reader) - old(sel(io.rpos, reader)) < 8 ==> err != nil
+  ensures typeid(T) == typeid(int8) && sel(io.rlen, reader) - old(sel(io.rpos, reader)) >= 1 ==> err == nil && sel(io.rpos, reader) == old(sel(io.rpos, reader)) + 1 && int(result) == (sel(sel(io.rdata, reader), old(sel(io.rpos, reader))) >= 128 ? sel(sel(io.rdata, reader), old(sel(io.rpos, reader))) - 256 : sel(sel(io.rdata, reader), old(sel(io.rpos, reader))))
+  ensures typeid(T) == typeid(int8) && sel(io.rlen, reader) - old(sel(io.rpos, reader)) < 1 ==> err != nil
+  ensures typeid(T) == typeid(int16) && sel(io.rlen, reader) - old(sel(io.rpos, reader)) >= 2 ==> err == nil && sel(io.rpos, reader) == old(sel(io.rpos, reader)) + 2 && int(result) == (le16(sel(io.rdata, reader), old(sel(io.rpos, reader))) >= 32768 ? le16(sel(io.rdata, reader), old(sel(io.rpos, reader))) - 65536 : le16(sel(io.rdata, reader), old(sel(io.rpos, reader))))
+  ensures typeid(T) == typeid(int16) && sel(io.rlen, reader) - old(sel(io.rpos, reader)) < 2 ==> err != nil
+  ensures typeid(T) == typeid(int32) && sel(io.rlen, reader) - old(sel(io.rpos, reader)) >= 4 ==> err == nil && sel(io.rpos, reader) == old(sel(io.rpos, reader)) + 4 && int(result) == (le32(sel(io.rdata, reader), old(sel(io.rpos, reader))) >= 2147483648 ? le32(sel(io.rdata, reader), old(sel(io.rpos, reader))) - 4294967296 : le32(sel(io.rdata, reader), old(sel(io.rpos, reader))))
+  ensures typeid(T) == typeid(int32) && sel(io.rlen, reader) - old(sel(io.rpos, reader)) < 4 ==> err != nil
+  ensures typeid(T) == typeid(int64) && sel(io.rlen, reader) - old(sel(io.rpos, reader)) >= 8 ==> err == nil && sel(io.rpos, reader) == old(sel(io.rpos, reader)) + 8 && int(result) == (le64(sel(io.rdata, reader), old(sel(io.rpos, reader))) >= 9223372036854775808 ? le64(sel(io.rdata, reader), old(sel(io.rpos, reader))) - 18446744073709551616 : le64(sel(io.rdata, reader), old(sel(io.rpos, reader))))
+  ensures typeid(T) == typeid(int64) && sel(io.rlen, reader) - old(sel(io.rpos, reader)) < 8 ==> err != nil
+  ensures typeid(T) == typeid(bool) && sel(io.rlen, reader) - old(sel(io.rpos, reader)) >= 1 ==> err == nil && sel(io.rpos, reader) == old(sel(io.rpos, reader)) + 1
+  ensures typeid(T) == typeid(bool) && sel(io.rlen, reader) - old(sel(io.rpos, reader)) < 1 ==> err != nil
+
+-- exactly length bytes, whatever the chunking of the reader; memory use is bounded by what the reader
+-- delivers, not by the requested length
+func ReadBytes
+  requires reader != nil
+  opt allocbound sel(io.rlen, reader) - old(sel(io.rpos, reader))
+  modifies ghost(io.rpos)
+  ensures forall x Int :: x != reader ==> sel(io.rpos, x) == sel(old(io.rpos), x)
+  ensures sel(io.rpos, reader) >= old(sel(io.rpos, reader)) && sel(io.rpos, reader) <= sel(io.rlen, reader)
+  ensures length >= 0 && sel(io.rlen, reader) - old(sel(io.rpos, reader)) >= length ==> r1 == nil && len(r0) == length && sel(io.rpos, reader) == old(sel(io.rpos, reader)) + length
+  ensures length >= 0 && sel(io.rlen, reader) - old(sel(io.rpos, reader)) >= length ==> forall i Int :: 0 <= i && i < length ==> r0[i] == sel(sel(io.rdata, reader), old(sel(io.rpos, reader)) + i)
+  ensures length < 0 || sel(io.rlen, reader) - old(sel(io.rpos, reader)) < length ==> r1 != nil
+
+-- the size prefix of the configured width (little-endian)
+func readFixedSize
+  requires reader != nil
+  panics-iff !(lenType == serializer.SeriLengthPrefixTypeAsByte || lenType == serializer.SeriLengthPrefixTypeAsUint16 || lenType == serializer.SeriLengthPrefixTypeAsUint32 || lenType == serializer.SeriLengthPrefixTypeAsUint64)
+  modifies ghost(io.rpos)
+  ensures forall x Int :: x != reader ==> sel(io.rpos, x) == sel(old(io.rpos), x)
+  ensures sel(io.rpos, reader) >= old(sel(io.rpos, reader)) && sel(io.rpos, reader) <= sel(io.rlen, reader)
+  ensures sel(io.rlen, reader) - old(sel(io.rpos, reader)) >= (lenType == serializer.SeriLengthPrefixTypeAsByte ? 1 : (lenType == serializer.SeriLengthPrefixTypeAsUint16 ? 2 : (lenType == serializer.SeriLengthPrefixTypeAsUint32 ? 4 : 8))) ==> r1 == nil && sel(io.rpos, reader) == old(sel(io.rpos, reader)) + (lenType == serializer.SeriLengthPrefixTypeAsByte ? 1 : (lenType == serializer.SeriLengthPrefixTypeAsUint16 ? 2 : (lenType == serializer.SeriLengthPrefixTypeAsUint32 ? 4 : 8)))
+  ensures sel(io.rlen, reader) - old(sel(io.rpos, reader)) >= (lenType == serializer.SeriLengthPrefixTypeAsByte ? 1 : (lenType == serializer.SeriLengthPrefixTypeAsUint16 ? 2 : (lenType == serializer.SeriLengthPrefixTypeAsUint32 ? 4 : 8))) && (lenType != serializer.SeriLengthPrefixTypeAsUint64 || sizeprefix(sel(io.rdata, reader), old(sel(io.rpos, reader)), lenType) <= MaxInt64) ==> r0 == sizeprefix(sel(io.rdata, reader), old(sel(io.rpos, reader)), lenType)
+  ensures sel(io.rlen, reader) - old(sel(io.rpos, reader)) < (lenType == serializer.SeriLengthPrefixTypeAsByte ? 1 : (lenType == serializer.SeriLengthPrefixTypeAsUint16 ? 2 : (lenType == serializer.SeriLengthPrefixTypeAsUint32 ? 4 : 8))) ==> r1 != nil
+
+func ReadBytesWithSize
+  requires reader != nil
+  requires (lenType == serializer.SeriLengthPrefixTypeAsByte || lenType == serializer.SeriLengthPrefixTypeAsUint16 || lenType == serializer.SeriLengthPrefixTypeAsUint32 || lenType == serializer.SeriLengthPrefixTypeAsUint64)
+  opt allocbound sel(io.rlen, reader) - old(sel(io.rpos, reader))
+  modifies ghost(io.rpos)
+  ensures forall x Int :: x != reader ==> sel(io.rpos, x) == sel(old(io.rpos), x)
+  ensures sel(io.rpos, reader) >= old(sel(io.rpos, reader)) && sel(io.rpos, reader) <= sel(io.rlen, reader)
+  ensures sel(io.rlen, reader) - old(sel(io.rpos, reader)) >= (lenType == serializer.SeriLengthPrefixTypeAsByte ? 1 : (lenType == serializer.SeriLengthPrefixTypeAsUint16 ? 2 : (lenType == serializer.SeriLengthPrefixTypeAsUint32 ? 4 : 8))) && sel(io.rlen, reader) - old(sel(io.rpos, reader)) - (lenType == serializer.SeriLengthPrefixTypeAsByte ? 1 : (lenType == serializer.SeriLengthPrefixTypeAsUint16 ? 2 : (lenType == serializer.SeriLengthPrefixTypeAsUint32 ? 4 : 8))) >= sizeprefix(sel(io.rdata, reader), old(sel(io.rpos, reader)), lenType) ==> r1 == nil && len(r0) == sizeprefix(sel(io.rdata, reader), old(sel(io.rpos, reader)), lenType) && sel(io.rpos, reader) == old(sel(io.rpos, reader)) + (lenType == serializer.SeriLengthPrefixTypeAsByte ? 1 : (lenType == serializer.SeriLengthPrefixTypeAsUint16 ? 2 : (lenType == serializer.SeriLengthPrefixTypeAsUint32 ? 4 : 8))) + sizeprefix(sel(io.rdata, reader), old(sel(io.rpos, reader)), lenType)
+  ensures sel(io.rlen, reader) - old(sel(io.rpos, reader)) >= (lenType == serializer.SeriLengthPrefixTypeAsByte ? 1 : (lenType == serializer.SeriLengthPrefixTypeAsUint16 ? 2 : (lenType == serializer.SeriLengthPrefixTypeAsUint32 ? 4 : 8))) && sel(io.rlen, reader) - old(sel(io.rpos, reader)) - (lenType == serializer.SeriLengthPrefixTypeAsByte ? 1 : (lenType == serializer.SeriLengthPrefixTypeAsUint16 ? 2 : (lenType == serializer.SeriLengthPrefixTypeAsUint32 ? 4 : 8))) >= sizeprefix(sel(io.rdata, reader), old(sel(io.rpos, reader)), lenType) ==> forall i Int :: 0 <= i && i < len(r0) ==> r0[i] == sel(sel(io.rdata, reader), old(sel(io.rpos, reader)) + (lenType == serializer.SeriLengthPrefixTypeAsByte ? 1 : (lenType == serializer.SeriLengthPrefixTypeAsUint16 ? 2 : (lenType == serializer.SeriLengthPrefixTypeAsUint32 ? 4 : 8))) + i)
+
+func ReadObject
+  requires reader != nil
+  opt allocbound sel(io.rlen, reader) - old(sel(io.rpos, reader))
+  callback objectFromBytesFunc(b) (obj, consumed, oerr)
+  modifies ghost(io.rpos)
+  ensures forall x Int :: x != reader ==> sel(io.rpos, x) == sel(old(io.rpos), x)
+  ensures sel(io.rpos, reader) >= old(sel(io.rpos, reader)) && sel(io.rpos, reader) <= sel(io.rlen, reader)
+  ensures fixedLen >= 0 && sel(io.rlen, reader) - old(sel(io.rpos, reader)) >= fixedLen ==> sel(io.rpos, reader) == old(sel(io.rpos, reader)) + fixedLen
+  ensures fixedLen < 0 || sel(io.rlen, reader) - old(sel(io.rpos, reader)) < fixedLen ==> r1 != nil
+
+func ReadObjectWithSize
+  requires reader != nil
+  requires (lenType == serializer.SeriLengthPrefixTypeAsByte || lenType == serializer.SeriLengthPrefixTypeAsUint16 || lenType == serializer.SeriLengthPrefixTypeAsUint32 || lenType == serializer.SeriLengthPrefixTypeAsUint64)
+  opt allocbound sel(io.rlen, reader) - old(sel(io.rpos, reader))
+  callback objectFromBytesFunc(b) (obj, consumed, oerr)
+  modifies ghost(io.rpos)
+  ensures forall x Int :: x != reader ==> sel(io.rpos, x) == sel(old(io.rpos), x)
+  ensures sel(io.rpos, reader) >= old(sel(io.rpos, reader)) && sel(io.rpos, reader) <= sel(io.rlen, reader)
+  ensures sel(io.rlen, reader) - old(sel(io.rpos, reader)) >= (lenType == serializer.SeriLengthPrefixTypeAsByte ? 1 : (lenType == serializer.SeriLengthPrefixTypeAsUint16 ? 2 : (lenType == serializer.SeriLengthPrefixTypeAsUint32 ? 4 : 8))) && sel(io.rlen, reader) - old(sel(io.rpos, reader)) - (lenType == serializer.SeriLengthPrefixTypeAsByte ? 1 : (lenType == serializer.SeriLengthPrefixTypeAsUint16 ? 2 : (lenType == serializer.SeriLengthPrefixTypeAsUint32 ? 4 : 8))) >= sizeprefix(sel(io.rdata, reader), old(sel(io.rpos, reader)), lenType) ==> sel(io.rpos, reader) == old(sel(io.rpos, reader)) + (lenType == serializer.SeriLengthPrefixTypeAsByte ? 1 : (lenType == serializer.SeriLengthPrefixTypeAsUint16 ? 2 : (lenType == serializer.SeriLengthPrefixTypeAsUint32 ? 4 : 8))) + sizeprefix(sel(io.rdata, reader), old(sel(io.rpos, reader)), lenType)
+
+-- the element count, then the callback once per element in index order; stops at the first error
+func ReadCollection
+  requires reader != nil
+  requires (lenType == serializer.SeriLengthPrefixTypeAsByte || lenType == serializer.SeriLengthPrefixTypeAsUint16 || lenType == serializer.SeriLengthPrefixTypeAsUint32 || lenType == serializer.SeriLengthPrefixTypeAsUint64)
+  callback readCallback(i) (cerr)
+    modifies ghost(io.rpos)
+  modifies ghost(io.rpos)
+  loop 1 invariant true
+
+func Write
+  instantiate T: uint8, uint16, uint32, uint64, int8, int16, int32, int64, bool
+  requires writer != nil && typeof(writer) != typeid(*bytes.Buffer)
+  modifies ghost(io.wdata), ghost(io.wlen)
+  ensures forall x Int :: x != writer ==> sel(io.wdata, x) == sel(old(io.wdata), x) && sel(io.wlen, x) == sel(old(io.wlen), x)
+  ensures forall i Int :: i < old(sel(io.wlen, writer)) ==> sel(sel(io.wdata, writer), i) == sel(sel(old(io.wdata), writer), i)
+  ensures sel(io.wlen, writer) >= old(sel(io.wlen, writer))
+  ensures typeid(T) == typeid(uint8) && r0 == nil ==> sel(io.wlen, writer) == old(sel(io.wlen, writer)) + 1 && sel(sel(io.wdata, writer), old(sel(io.wlen, writer))) == int(value)
+  ensures typeid(T) == typeid(uint16) && r0 == nil ==> sel(io.wlen, writer) == old(sel(io.wlen, writer)) + 2 && le16(sel(io.wdata, writer), old(sel(io.wlen, writer))) == int(value)
+  ensures typeid(T) == typeid(uint32) && r0 == nil ==> sel(io.wlen, writer) == old(sel(io.wlen, writer)) + 4 && le32(sel(io.wdata, writer), old(sel(io.wlen, writer))) == int(value)
+  ensures typeid(T) == typeid(uint64) && r0 == nil ==> sel(io.wlen, writer) == old(sel(io.wlen, writer)) + 8 && le64(sel(io.wdata, writer), old(sel(io.wlen, writer))) == int(value)
+  ensures typeid(T) == typeid(int8) && r0 == nil ==> sel(io.wlen, writer) == old(sel(io.wlen, writer)) + 1 && sel(sel(io.wdata, writer), old(sel(io.wlen, writer))) == (int(value) < 0 ? int(value) + 256 : int(value))
+  ensures typeid(T) == typeid(int16) && r0 == nil ==> sel(io.wlen, writer) == old(sel(io.wlen, writer)) + 2 && le16(sel(io.wdata, writer), old(sel(io.wlen, writer))) == (int(value) < 0 ? int(value) + 65536 : int(value))
+  ensures typeid(T) == typeid(int32) && r0 == nil ==> sel(io.wlen, writer) == old(sel(io.wlen, writer)) + 4 && le32(sel(io.wdata, writer), old(sel(io.wlen, writer))) == (int(value) < 0 ? int(value) + 4294967296 : int(value))
+  ensures typeid(T) == typeid(int64) && r0 == nil ==> sel(io.wlen, writer) == old(sel(io.wlen, writer)) + 8 && le64(sel(io.wdata, writer), old(sel(io.wlen, writer))) == (int(value) < 0 ? int(value) + 18446744073709551616 : int(value))
+  ensures typeid(T) == typeid(bool) && r0 == nil ==> sel(io.wlen, writer) == old(sel(io.wlen, writer)) + 1
+
+func WriteBytes
+  requires writer != nil
+  modifies ghost(io.wdata), ghost(io.wlen)
+  ensures forall x Int :: x != writer ==> sel(io.wdata, x) == sel(old(io.wdata), x) && sel(io.wlen, x) == sel(old(io.wlen), x)
+  ensures forall i Int :: i < old(sel(io.wlen, writer)) ==> sel(sel(io.wdata, writer), i) == sel(sel(old(io.wdata), writer), i)
+  ensures r0 == nil ==> sel(io.wlen, writer) == old(sel(io.wlen, writer)) + len(bytes) && forall i Int :: 0 <= i && i < len(bytes) ==> sel(sel(io.wdata, writer), old(sel(io.wlen, writer)) + i) == bytes[i]
+
+func writeFixedSize
+  requires writer != nil && typeof(writer) != typeid(*bytes.Buffer) && l >= 0
+  panics-iff !(lenType == serializer.SeriLengthPrefixTypeAsByte || lenType == serializer.SeriLengthPrefixTypeAsUint16 || lenType == serializer.SeriLengthPrefixTypeAsUint32 || lenType == serializer.SeriLengthPrefixTypeAsUint64)
+  modifies ghost(io.wdata), ghost(io.wlen)
+  ensures forall x Int :: x != writer ==> sel(io.wdata, x) == sel(old(io.wdata), x) && sel(io.wlen, x) == sel(old(io.wlen), x)
+  ensures forall i Int :: i < old(sel(io.wlen, writer)) ==> sel(sel(io.wdata, writer), i) == sel(sel(old(io.wdata), writer), i)
+  ensures sel(io.wlen, writer) >= old(sel(io.wlen, writer))
+  ensures r0 == nil ==> sel(io.wlen, writer) == old(sel(io.wlen, writer)) + (lenType == serializer.SeriLengthPrefixTypeAsByte ? 1 : (lenType == serializer.SeriLengthPrefixTypeAsUint16 ? 2 : (lenType == serializer.SeriLengthPrefixTypeAsUint32 ? 4 : 8))) && sizeprefix(sel(io.wdata, writer), old(sel(io.wlen, writer)), lenType) == l
+  ensures l > (lenType == serializer.SeriLengthPrefixTypeAsByte ? 255 : (lenType == serializer.SeriLengthPrefixTypeAsUint16 ? 65535 : (lenType == serializer.SeriLengthPrefixTypeAsUint32 ? 4294967295 : MaxInt64))) ==> r0 != nil && sel(io.wlen, writer) == old(sel(io.wlen, writer))
+
+func WriteBytesWithSize
+  requires writer != nil && typeof(writer) != typeid(*bytes.Buffer)
+  requires (lenType == serializer.SeriLengthPrefixTypeAsByte || lenType == serializer.SeriLengthPrefixTypeAsUint16 || lenType == serializer.SeriLengthPrefixTypeAsUint32 || lenType == serializer.SeriLengthPrefixTypeAsUint64)
+  modifies ghost(io.wdata), ghost(io.wlen)
+  ensures forall x Int :: x != writer ==> sel(io.wdata, x) == sel(old(io.wdata), x) && sel(io.wlen, x) == sel(old(io.wlen), x)
+  ensures forall i Int :: i < old(sel(io.wlen, writer)) ==> sel(sel(io.wdata, writer), i) == sel(sel(old(io.wdata), writer), i)
+  ensures r0 == nil ==> sel(io.wlen, writer) == old(sel(io.wlen, writer)) + (lenType == serializer.SeriLengthPrefixTypeAsByte ? 1 : (lenType == serializer.SeriLengthPrefixTypeAsUint16 ? 2 : (lenType == serializer.SeriLengthPrefixTypeAsUint32 ? 4 : 8))) + len(bytes) && sizeprefix(sel(io.wdata, writer), old(sel(io.wlen, writer)), lenType) == len(bytes)
+  ensures r0 == nil ==> forall i Int :: 0 <= i && i < len(bytes) ==> sel(sel(io.wdata, writer), old(sel(io.wlen, writer)) + (lenType == serializer.SeriLengthPrefixTypeAsByte ? 1 : (lenType == serializer.SeriLengthPrefixTypeAsUint16 ? 2 : (lenType == serializer.SeriLengthPrefixTypeAsUint32 ? 4 : 8))) + i) == bytes[i]
+
+func WriteObject
+  requires writer != nil
+  callback objectToBytesFunc(x) (b, oerr)
+  modifies ghost(io.wdata), ghost(io.wlen)
+  ensures forall x Int :: x != writer ==> sel(io.wdata, x) == sel(old(io.wdata), x) && sel(io.wlen, x) == sel(old(io.wlen), x)
+  ensures forall i Int :: i < old(sel(io.wlen, writer)) ==> sel(sel(io.wdata, writer), i) == sel(sel(old(io.wdata), writer), i)
+
+func WriteObjectWithSize
+  requires writer != nil && typeof(writer) != typeid(*bytes.Buffer)
+  requires (lenType == serializer.SeriLengthPrefixTypeAsByte || lenType == serializer.SeriLengthPrefixTypeAsUint16 || lenType == serializer.SeriLengthPrefixTypeAsUint32 || lenType == serializer.SeriLengthPrefixTypeAsUint64)
+  callback objectToBytesFunc(x) (b, oerr)
+  modifies ghost(io.wdata), ghost(io.wlen)
+  ensures forall x Int :: x != writer ==> sel(io.wdata, x) == sel(old(io.wdata), x) && sel(io.wlen, x) == sel(old(io.wlen), x)
+  ensures forall i Int :: i < old(sel(io.wlen, writer)) ==> sel(sel(io.wdata, writer), i) == sel(sel(old(io.wdata), writer), i)
+  ensures r0 == nil ==> sel(io.wlen, writer) >= old(sel(io.wlen, writer)) + (lenType == serializer.SeriLengthPrefixTypeAsByte ? 1 : (lenType == serializer.SeriLengthPrefixTypeAsUint16 ? 2 : (lenType == serializer.SeriLengthPrefixTypeAsUint32 ? 4 : 8))) && sizeprefix(sel(io.wdata, writer), old(sel(io.wlen, writer)), lenType) == sel(io.wlen, writer) - old(sel(io.wlen, writer)) - (lenType == serializer.SeriLengthPrefixTypeAsByte ? 1 : (lenType == serializer.SeriLengthPrefixTypeAsUint16 ? 2 : (lenType == serializer.SeriLengthPrefixTypeAsUint32 ? 4 : 8)))
+@*/
